@@ -268,6 +268,11 @@ func checkC09(c CaseC09, info *Info) *Failure {
 		}
 		if !hasEmptyKeyOrOdd(c.Map) && !hasKeyNamed(c.Map, "#text") {
 			if xb, err := mv.Xml(); err == nil {
+				// the same bytes were seen a moment ago under another attribute prefix: every call decodes afresh
+				mxj.SetAttrPrefix("zz_")
+				x2j.XmlLeafNodes(xb)
+				x2j.XmlLeafPath(xb)
+				mxj.SetAttrPrefix(c.Prefix)
 				if m2, derr := mxj.NewMapXml(xb); derr == nil {
 					xl, xerr := x2j.XmlLeafNodes(xb)
 					cl := m2.LeafNodes()
@@ -281,6 +286,14 @@ func checkC09(c CaseC09, info *Info) *Failure {
 					}
 					if xerr != nil || !reflect.DeepEqual(leafStrings(xp, xv, true), leafStrings(cp, cv, true)) {
 						return failf("wrapper-mismatch", "x2j.XmlLeafNodes(%s) = %v,%v; core %v", xb, leafStrings(xp, xv, true), xerr, leafStrings(cp, cv, true))
+					}
+					xlp, xlperr := x2j.XmlLeafPath(xb)
+					wlp := m2.LeafPaths()
+					sort.Strings(xlp)
+					sort.Strings(wlp)
+					xlv, xlverr := x2j.XmlLeafValues(xb)
+					if xlperr != nil || xlverr != nil || !reflect.DeepEqual(xlp, wlp) || !sameMultisetStrict(xlv, m2.LeafValues()) {
+						return failf("wrapper-mismatch", "x2j.XmlLeafPath / XmlLeafValues(%s) = %v / %v (%v %v); core %v / %v", xb, xlp, xlv, xlperr, xlverr, wlp, m2.LeafValues())
 					}
 				}
 			}
